@@ -180,6 +180,14 @@ def _norm(v: Any) -> Any:
     return v
 
 
+def safe_apply(ad, act: str, args: list[Any]):
+    """An exception the adapter does not expect is an observable result, not a harness failure."""
+    try:
+        return ad.apply(act, args)
+    except Exception as e:  # noqa: BLE001
+        return ("exception", type(e).__name__)
+
+
 # ---------------------------------------------------------------- S2C
 def replay_graph(ctx: Ctx, struct: str, module: str, factory, state_vars: list[str], *, cfg_text: str | None = None):
     tmp = tempfile.mkdtemp(prefix="verif-c12-")
@@ -210,7 +218,7 @@ def replay_graph(ctx: Ctx, struct: str, module: str, factory, state_vars: list[s
         hist = []
         for (u, v, lab) in p:
             act, args = s2c.parse_label(lab)
-            got = ad.apply(act, args)
+            got = safe_apply(ad, act, args)
             hist.append(lab)
             nsteps += 1
             want = states[v]["ret"]
@@ -243,13 +251,13 @@ def gen_worklist_trace(rng, n: int):
         op = rng.choices(["push", "pop", "remove", "bool"], [5, 3, 3, 2])[0]
         x = rng.randint(1, 12)
         if op == "push":
-            ev.append({"op": op, "x": x, "ret": list(ad.apply("Push", [x]))})
+            ev.append({"op": op, "x": x, "ret": list(safe_apply(ad, "Push", [x]))})
         elif op == "remove":
-            ev.append({"op": op, "x": x, "ret": list(ad.apply("Remove", [x]))})
+            ev.append({"op": op, "x": x, "ret": list(safe_apply(ad, "Remove", [x]))})
         elif op == "pop":
-            ev.append({"op": op, "x": 0, "ret": list(ad.apply("Pop", []))})
+            ev.append({"op": op, "x": 0, "ret": list(safe_apply(ad, "Pop", []))})
         else:
-            ev.append({"op": op, "x": 0, "ret": list(ad.apply("Bool", []))})
+            ev.append({"op": op, "x": 0, "ret": list(safe_apply(ad, "Bool", []))})
     return ev
 
 
@@ -259,17 +267,17 @@ def gen_ds_trace(rng, n: int, generic: bool):
     size = 0
     for _ in range(n):
         if size < 2 or (size < 12 and rng.random() < 0.15):
-            ev.append({"op": "add", "ret": list(ad.apply("Add", []))})
+            ev.append({"op": "add", "ret": list(safe_apply(ad, "Add", []))})
             size += 1
             continue
         op = rng.choices(["find", "union", "union_left", "connected"], [4, 2, 3, 2])[0]
         a, b = rng.randrange(size), rng.randrange(size)
         if op == "find":
             x = a if rng.random() < 0.9 else size + rng.randrange(3)
-            ev.append({"op": op, "x": x, "ret": list(ad.apply("Find", [x]))})
+            ev.append({"op": op, "x": x, "ret": list(safe_apply(ad, "Find", [x]))})
         else:
             act = {"union": "Union", "union_left": "UnionLeft", "connected": "Connected"}[op]
-            ev.append({"op": op, "a": a, "b": b, "ret": list(ad.apply(act, [a, b]))})
+            ev.append({"op": op, "a": a, "b": b, "ret": list(safe_apply(ad, act, [a, b]))})
     return ev
 
 
@@ -283,19 +291,19 @@ def gen_sd_trace(rng, n: int):
         if op == "new":
             if ns >= 8:
                 continue
-            ad.apply("NewScope", [s])
+            safe_apply(ad, "NewScope", [s])
             ns += 1
             ev.append({"op": op, "s": s, "k": 0, "v": 0, "ret": ["none", 0]})
         elif op == "set":
-            ev.append({"op": op, "s": s, "k": k, "v": v, "ret": list(ad.apply("Set", [s, k, v]))})
+            ev.append({"op": op, "s": s, "k": k, "v": v, "ret": list(safe_apply(ad, "Set", [s, k, v]))})
         elif op == "index":
-            ev.append({"op": op, "s": s, "k": k, "v": 0, "ret": list(ad.apply("Index", [s, k]))})
+            ev.append({"op": op, "s": s, "k": k, "v": 0, "ret": list(safe_apply(ad, "Index", [s, k]))})
         elif op == "get":
-            ev.append({"op": op, "s": s, "k": k, "v": 0, "ret": list(ad.apply("Get", [s, k]))})
+            ev.append({"op": op, "s": s, "k": k, "v": 0, "ret": list(safe_apply(ad, "Get", [s, k]))})
         elif op == "getd":
-            ev.append({"op": op, "s": s, "k": k, "v": v, "ret": list(ad.apply("GetDefault", [s, k, v]))})
+            ev.append({"op": op, "s": s, "k": k, "v": v, "ret": list(safe_apply(ad, "GetDefault", [s, k, v]))})
         else:
-            ev.append({"op": op, "s": s, "k": k, "v": 0, "ret": list(ad.apply("Contains", [s, k]))})
+            ev.append({"op": op, "s": s, "k": k, "v": 0, "ret": list(safe_apply(ad, "Contains", [s, k]))})
     return ev
 
 
